@@ -17,8 +17,8 @@ using namespace PL;
 
 #define CORE_OPS "STAR", "PLUS", "OPT", "AT", "NOT_AT", "SEQ", "SOR"
 #define CORE_OPS3 "SEQ3", "SOR3", "STAR2", "PLUS2", "OPT2", "AT2", "NOT_AT2"
-#define CONV_OPS "IF_THEN_ELSE", "IF_MUST", "OPT_MUST", "IF_MUST_ELSE", "MUST", "MUST2", "STAR_MUST", "LIST", "LIST_MUST", "LIST_TAIL", "MINUS", "REMATCH", "PAD", "PAD_OPT", "PARTIAL1", "PARTIAL", "STAR_PARTIAL1", "STAR_PARTIAL", "STRICT1", "STRICT", "STAR_STRICT1", "STAR_STRICT", "UNTIL1", "UNTIL2"
-#define CONV_OPS3 "IF_MUST3", "OPT_MUST3", "STAR_MUST3", "LIST3", "LIST_MUST3", "LIST_TAIL3", "REMATCH3", "PAD3", "PARTIAL3", "STAR_PARTIAL3", "STRICT3", "STAR_STRICT3", "UNTIL3"
+#define CONV_OPS "IF_THEN_ELSE", "IF_MUST", "OPT_MUST", "IF_MUST_ELSE", "MUST", "MUST2", "STAR_MUST", "LIST", "LIST_MUST", "LIST_TAIL", "MINUS", "REMATCH", "PAD", "PAD_OPT", "PARTIAL1", "PARTIAL", "STAR_PARTIAL1", "STAR_PARTIAL", "UNTIL1", "UNTIL2"
+#define CONV_OPS3 "IF_MUST3", "OPT_MUST3", "STAR_MUST3", "LIST3", "LIST_MUST3", "LIST_TAIL3", "REMATCH3", "PAD3", "PARTIAL3", "STAR_PARTIAL3", "UNTIL3"
 #define REP_OPS "REP0", "REP1", "REP2", "REP3", "REP2_2", "REP_MIN0", "REP_MIN1", "REP_MIN2", "REP_MIN2_2", "REP_MAX0", "REP_MAX1", "REP_MAX2", "REP_OPT1", "REP_OPT2", "REP_OPT2_2", "RMM00", "RMM01", "RMM02", "RMM11", "RMM12", "RMM22", "RMM12_2"
 #define EXC_OPS "TC_RF", "TC_ANY_RF", "TC_STD_RF", "TC_TYPE_RF", "TC_RN", "TC_ANY_RN", "TC_STD_RN", "TC_TYPE_RN", "TC_RF2"
 #define META_OPS "ENABLE", "DISABLE", "STATE", "ACTION_ALT", "CONTROL_ALT", "RAW1", "SEPARATED_SEQ", "IF_THEN_ELSE_THEN", "IF_THEN"
@@ -47,12 +47,15 @@ int main( int argc, char** argv )
    };
    std::vector< Fam > fams;
    // (i) direct recursion through every operator, every child position, fillers elsewhere; also every repetition over every filler
-   fams.push_back( { "every_operator_over_itself_and_fillers", { CORE_OPS, CORE_OPS3, CONV_OPS, CONV_OPS3, REP_OPS, EXC_OPS, META_OPS }, { FILLERS }, 3, false } );
+   if( thorough )
+      fams.push_back( { "every_operator_over_itself_and_fillers", { CORE_OPS, CORE_OPS3, CONV_OPS, CONV_OPS3, REP_OPS, EXC_OPS, META_OPS }, { FILLERS }, 3, false } );
+   else
+      fams.push_back( { "every_operator_over_itself_and_fillers", { CORE_OPS, CORE_OPS3, CONV_OPS, CONV_OPS3, REP_OPS, EXC_OPS, META_OPS }, { "ONE_A", "OPT_ONE_A", "AT_ONE_A" }, 3, false } );
    // (ii) indirect recursion: operator over operator (unary/binary menu), fillers as leaves
    if( thorough )
       fams.push_back( { "indirect_recursion_through_operator_pairs", { CORE_OPS, CONV_OPS, "REP2", "REP_MIN1", "RMM12", "REP_OPT2", "TC_RF", "TC_RN", "ENABLE", "STATE", "ACTION_ALT", "RAW1" }, { FILLERS_SMALL, CORE_OPS, CONV_OPS, "REP2", "REP_MIN1", "RMM12", "REP_OPT2", "TC_RF", "TC_RN", "ENABLE", "STATE", "ACTION_ALT", "RAW1" }, 3, false } );
    else
-      fams.push_back( { "indirect_recursion_through_classical_operators", { CORE_OPS, "IF_THEN_ELSE", "UNTIL2", "REMATCH", "STAR_PARTIAL", "RAW1", "TC_RF", "STATE" }, { FILLERS_SMALL, "SEQ", "SOR", "OPT", "STAR", "AT", "IF_THEN_ELSE" }, 3, false } );
+      fams.push_back( { "indirect_recursion_through_classical_operators", { "SEQ", "SOR", "STAR", "OPT", "IF_THEN_ELSE", "REMATCH" }, { FILLERS_SMALL, "SEQ", "SOR", "OPT", "AT" }, 3, false } );
 
    const std::string sigma = "ab[";
    std::vector< std::string > inputs;
